@@ -22,7 +22,7 @@ import (
 
 func init() {
 	vf.Register(&vf.CheckDef{ID: "C04", Level: "model_checking", Run: run,
-		Workers: map[string]vf.WorkerFunc{"sched": schedWorker},
+		Workers: map[string]vf.WorkerFunc{"sched": schedWorker, "arrival": arrivalWorker},
 		Replay:  replay})
 }
 
@@ -541,6 +541,7 @@ func run(c *vf.Ctx) {
 	c.Rule = "each configuration = (verb chain, input, --records-per-batch b); every configuration is explored over ALL goroutine schedules of the real pipeline (cooperative scheduler over rewritten channel ops/selects/spawns, DFS by re-execution, state caching on per-goroutine histories + channel contents). evaluations = executions run; distinct_nontrivial = configurations whose schedule space had at least one branching point; states = distinct global states at branching points; transitions = scheduler steps"
 	c.Assume("goroutines interact only through intercepted operations (channels, selects, close, mutex); unsynchronised shared memory is invisible to the cooperative scheduler (guarded by a separate free-running -race pass, non-deciding)")
 	c.Assume("external processes (--prepipe, tee -p, | redirects) are outside the scheduler and not explored here")
+	c.Assume("tail -f clause: line-oriented readers (dkvp nidx csv tsv jsonl csvlite) x streaming chains, one line delivered at a time through a scheduler-visible channel; checked at every quiescent state with the input still open")
 	c.Assume("inputs: N<=4 (quick) / N<=6 (thorough) records, 1-2 files, dkvp/csv/json readers; batch sizes 1..N+1")
 	pairs := enumerate(c.Quick())
 	ncfg := 0
@@ -553,6 +554,11 @@ func run(c *vf.Ctx) {
 		CrashKey: func(idx uint64, label, kind, tail string) (string, string) {
 			return "crash:" + label, fmt.Sprintf("worker %s while exploring %s: %s", kind, label, trunc(tail, 600))
 		}})
+	c.RunPool(vf.PoolSpec{Worker: "arrival", Sched: true, Shards: len(arrivalConfigs(c.Quick())), StallSecs: 600,
+		CrashKey: func(idx uint64, label, kind, tail string) (string, string) {
+			return "crash:" + label, fmt.Sprintf("worker %s while exploring %s: %s", kind, label, trunc(tail, 600))
+		}})
+	c.Extra["arrival_history_configurations"] = len(arrivalConfigs(c.Quick()))
 	c.TracesValidated = c.Counters["executions_completed"]
 	c.Extra["distinct_outcome_counts_per_configuration"] = vf.SortedSet(res, "outcomes")
 	c.Extra["note_traces"] = "exploration is on the implementation itself: every execution is an implementation trace (traces_validated_against_impl = completed executions)"
